@@ -39,7 +39,7 @@ WRAPPED = ["fetch", "participate", "propose", "psbcast", "bcast"]
 SYNC = ["fetchonly", "dutydbstore", "storeinternal", "storeexternal", "aggregate", "aggstore"]
 DUTY_TYPES = ["unknown", "proposer", "attester", "signature", "exit", "builder_proposer", "builder_registration", "randao",
               "prepare_aggregator", "aggregator", "sync_message", "prepare_sync_contribution", "sync_contribution", "info_sync"]
-FOREVER = 3600000   # ms: "until its context ends"
+FOREVER = 1500000   # ms: "until its context ends"
 
 
 def spec_texts():
@@ -153,7 +153,7 @@ def script(r, texts, go, dl, bo0):
         hon = r.random() < 0.5
         out.append({"lat": lat, "hon": hon, "res": result(r, cls, texts)})
         t += lat + (bo0 if i == 0 else int(bo0 * 1.6 ** i))
-    if r.random() < 0.7:
+    if cls == "temp" or r.random() < 0.5:      # the last entry repeats: it must not be a failure that returns at once for ever
         out.append(tail(r, texts))
     return out
 
@@ -437,9 +437,9 @@ def stage(o, tier, seed):
     hists, join_design = design_check(o, tier, seed)
     r = vlib.rng(seed, "retry-gen")
     r.shuffle(hists)
-    hists = hists[:6000 if thorough else 900]
+    hists = hists[:6000 if thorough else 700]
     gen = [from_hist(r, h, texts) for h in hists]
-    rnd = random_schedules(seed, 4000 if thorough else 700, 2000 if thorough else 350, thorough, texts)
+    rnd = random_schedules(seed, 4000 if thorough else 600, 2000 if thorough else 300, thorough, texts)
     o.extra["retry_histories_by_tlc"] = len(gen)
     vlib.conformance(o, FAMILY, TRACE, TCFG, PKG, gen, tag="retrygen", chunk=400, exec_timeout=900, tv_timeout=900)
     vlib.conformance(o, FAMILY, TRACE, TCFG, PKG, rnd, tag="retryrnd", chunk=300, exec_timeout=900, tv_timeout=900)
